@@ -30,6 +30,14 @@
 (*   dh      some Diffie-Hellman key exchange is advertised (rate check)    *)
 (*   moduli, style, openssh   the server's group selection policy           *)
 (*   skipRate                 --skip-rate-test                              *)
+(*   role    "server" (the tool connects) | "client" (-c: the tool listens,   *)
+(*           one client connects, no probes are made)                       *)
+(*   proto   what the peer speaks: "2"; "1" (answers an SSH-2.0 ident with   *)
+(*           "Protocol major versions differ." and closes, answers an        *)
+(*           SSH-1.5 ident with SMSG_PUBLIC_KEY); "none" (refuses both)      *)
+(*   try     protocols enabled on the command line: "12" (default: SSH-2,    *)
+(*           falling back to SSH-1 on a version mismatch), "2", "1"          *)
+(*   cliTimeout   -t given (a client audit then gives up waiting)            *)
 (***************************************************************************)
 EXTENDS Integers, Sequences, FiniteSets, TLC
 
@@ -90,7 +98,7 @@ VARIABLES
     pc,           \* control state of the tool
     sock,         \* main socket: [open |-> BOOLEAN, phase |-> "", stage |-> "", kexreq |-> Nat]
     nConn,        \* [phase |-> number of connections opened in it]
-    hkIdx,        \* position in ProbeOrder
+    hkTried,      \* host-key types a probe connection was already made for
     hkParsed,     \* host-key types already dealt with
     hkGot,        \* types for which a reply was recorded: type |-> "key" | "empty"
     hkCur,        \* type being probed
@@ -106,9 +114,11 @@ VARIABLES
     faults, waits,
     lastRead,     \* <<number, outcome>> of the latest read of the tool (what the environment did to it)
     handshakeOK, reportShown, exit,
-    kexReqOutside, maxKexReq, openAtExit
+    kexReqOutside, maxKexReq, openAtExit,
+    hs            \* [sshv |-> protocol version of the current attempt, orphans |-> main sockets of abandoned attempts still open,
+                  \*  listening |-> listening sockets of a client audit]
 
-vars == <<srv, pc, sock, nConn, hkIdx, hkParsed, hkGot, hkCur, gexIdx, gexStage, gexStep, smallest, reconnFailed,
+vars == <<hs, srv, pc, sock, nConn, hkTried, hkParsed, hkGot, hkCur, gexIdx, gexStage, gexStep, smallest, reconnFailed,
           curReq, asked, reported, rate, faults, waits, lastRead, handshakeOK, reportShown, exit, kexReqOutside, maxKexReq, openAtExit>>
 
 Phases == {"handshake", "hostkey", "gex", "rate"}
@@ -120,13 +130,14 @@ Init ==
     /\ pc = "h_connect"
     /\ sock = NoSock
     /\ nConn = [p \in Phases |-> 0]
-    /\ hkIdx = 1 /\ hkParsed = {} /\ hkGot = EmptyFn /\ hkCur = ""
+    /\ hkTried = {} /\ hkParsed = {} /\ hkGot = EmptyFn /\ hkCur = ""
     /\ gexIdx = 1 /\ gexStage = "first" /\ gexStep = 1 /\ smallest = 0 /\ reconnFailed = FALSE
     /\ curReq = <<0, 0, 0>> /\ asked = EmptyFn /\ reported = EmptyFn
     /\ rate = [opened |-> 0, counted |-> 0, inflight |-> 0, ticks |-> 0, stage |-> "open", pending |-> 0]
     /\ faults = 0 /\ waits = 0 /\ lastRead = <<0, "">>
     /\ handshakeOK = FALSE /\ reportShown = FALSE /\ exit = -1
     /\ kexReqOutside = FALSE /\ maxKexReq = 0 /\ openAtExit = 0
+    /\ hs = [sshv |-> IF srv.try = "1" THEN 1 ELSE 2, orphans |-> 0, listening |-> 0]
 
 ---------------------------------------------------------------------------
 (* environment *)
@@ -136,7 +147,7 @@ FaultKinds == {"eof", "stall", "garbage"}
 Outcomes == {"ok"} \cup (IF CanFault THEN FaultKinds ELSE {})
 \* (with an unbounded budget - trace validation - faults are inferred, not counted: counting would only multiply states)
 Counting == MaxFaults < 1000
-Charge(o) == /\ faults' = IF o = "ok" \/ ~Counting THEN faults ELSE faults + 1
+Charge(o) == /\ faults' = IF o \in {"ok", "mismatch"} \/ ~Counting THEN faults ELSE faults + 1
              /\ waits' = IF o = "stall" /\ Counting THEN waits + 1 ELSE waits
              /\ lastRead' = <<IF Counting THEN 0 ELSE lastRead[1] + 1, o>>
 
@@ -148,11 +159,11 @@ Bump(ph) == nConn' = [nConn EXCEPT ![ph] = @ + 1]
 \* a refused / timed-out / unresolvable connection is a fault of the environment like any other
 Refusal(ok) == (ok \/ CanFault) /\ faults' = IF ok \/ ~Counting THEN faults ELSE faults + 1
 HConnect(ok) ==
-    /\ pc = "h_connect" /\ Refusal(ok)
+    /\ pc = "h_connect" /\ srv.role = "server" /\ Refusal(ok)
     /\ Bump("handshake")
     /\ IF ok THEN sock' = Open("handshake") /\ pc' = "h_banner" /\ exit' = exit
        ELSE sock' = sock /\ pc' = "exit" /\ exit' = 1
-    /\ UNCHANGED <<srv, hkIdx, hkParsed, hkGot, hkCur, gexIdx, gexStage, gexStep, smallest, reconnFailed, curReq, asked, reported,
+    /\ UNCHANGED <<srv, hkTried, hkParsed, hkGot, hkCur, gexIdx, gexStage, gexStep, smallest, reconnFailed, curReq, asked, reported,
                    rate, waits, lastRead, handshakeOK, reportShown, kexReqOutside, maxKexReq, openAtExit>>
 
 \* the tool sends its identification string, then reads the peer's
@@ -163,12 +174,12 @@ SendBanner(next) ==
 
 HBanner ==
     /\ pc = "h_banner" /\ SendBanner("h_banner_read")
-    /\ UNCHANGED <<srv, nConn, hkIdx, hkParsed, hkGot, hkCur, gexIdx, gexStage, gexStep, smallest, reconnFailed, curReq, asked, reported,
+    /\ UNCHANGED <<srv, nConn, hkTried, hkParsed, hkGot, hkCur, gexIdx, gexStage, gexStep, smallest, reconnFailed, curReq, asked, reported,
                    rate, faults, waits, lastRead, handshakeOK, reportShown, exit, kexReqOutside, maxKexReq, openAtExit>>
 HBannerRead(o) ==
     /\ pc = "h_banner_read" /\ o \in Outcomes /\ Charge(o)
     /\ IF o = "ok" THEN pc' = "h_sendkex" /\ exit' = exit ELSE pc' = "exit" /\ exit' = 1
-    /\ UNCHANGED <<srv, sock, nConn, hkIdx, hkParsed, hkGot, hkCur, gexIdx, gexStage, gexStep, smallest, reconnFailed, curReq, asked,
+    /\ UNCHANGED <<srv, sock, nConn, hkTried, hkParsed, hkGot, hkCur, gexIdx, gexStage, gexStep, smallest, reconnFailed, curReq, asked,
                    reported, rate, handshakeOK, reportShown, kexReqOutside, maxKexReq, openAtExit>>
 
 SendKexinit(next) ==
@@ -177,14 +188,45 @@ SendKexinit(next) ==
     /\ pc' = next
 HSendKex ==
     /\ pc = "h_sendkex" /\ SendKexinit("h_recvkex")
-    /\ UNCHANGED <<srv, nConn, hkIdx, hkParsed, hkGot, hkCur, gexIdx, gexStage, gexStep, smallest, reconnFailed, curReq, asked, reported,
+    /\ UNCHANGED <<srv, nConn, hkTried, hkParsed, hkGot, hkCur, gexIdx, gexStage, gexStep, smallest, reconnFailed, curReq, asked, reported,
                    rate, faults, waits, lastRead, handshakeOK, reportShown, exit, kexReqOutside, maxKexReq, openAtExit>>
+\* What the peer answers to the tool's identification string and KEXINIT when nothing goes wrong: its own KEXINIT (SSH-2),
+\* its public-key message (SSH-1), or the version-mismatch text followed by a close.
+Natural == IF srv.proto = "2" \/ (srv.proto = "1" /\ hs.sshv = 1) THEN "ok" ELSE "mismatch"
+\* (the tool sends an SSH-2 KEXINIT even on an SSH-1 attempt - harmless, and what the code does)
 HRecvKex(o) ==
-    /\ pc = "h_recvkex" /\ o \in Outcomes /\ Charge(o)
-    /\ IF o = "ok" THEN pc' = "hk_begin" /\ handshakeOK' = TRUE /\ exit' = exit
-       ELSE pc' = "exit" /\ handshakeOK' = FALSE /\ exit' = 1
-    /\ UNCHANGED <<srv, sock, nConn, hkIdx, hkParsed, hkGot, hkCur, gexIdx, gexStage, gexStep, smallest, reconnFailed, curReq, asked,
+    /\ pc = "h_recvkex" /\ o \in (Outcomes \ {"ok"}) \cup {Natural} /\ Charge(o)
+    /\ CASE o = "ok" ->
+              \* SSH-1 audits and client audits go straight to the report: no probes
+              /\ pc' = (IF hs.sshv = 1 \/ srv.role = "client" THEN "report" ELSE "hk_begin")
+              /\ handshakeOK' = TRUE /\ UNCHANGED <<exit, sock, hs>>
+         [] o = "mismatch" /\ hs.sshv = 2 /\ srv.try = "12" ->
+              \* fall back to SSH-1: a fresh attempt on a fresh connection; the first socket stays open until the process ends
+              /\ pc' = "h_connect" /\ sock' = NoSock
+              /\ hs' = [hs EXCEPT !.sshv = 1, !.orphans = @ + 1]
+              /\ UNCHANGED <<handshakeOK, exit>>
+         [] OTHER ->
+              /\ pc' = "exit" /\ handshakeOK' = FALSE /\ exit' = 1 /\ UNCHANGED <<sock, hs>>
+    /\ UNCHANGED <<srv, nConn, hkTried, hkParsed, hkGot, hkCur, gexIdx, gexStage, gexStep, smallest, reconnFailed, curReq, asked,
                    reported, rate, reportShown, kexReqOutside, maxKexReq, openAtExit>>
+
+---------------------------------------------------------------------------
+(* client audit (-c): the tool listens on IPv4 and IPv6, waits for one client, then proceeds as above without connecting *)
+CU == <<srv, sock, hkTried, hkParsed, hkGot, hkCur, gexIdx, gexStage, gexStep, smallest, reconnFailed, curReq, asked, reported,
+        rate, faults, waits, lastRead, handshakeOK, reportShown, kexReqOutside, maxKexReq, openAtExit>>
+CListen ==
+    /\ pc = "h_connect" /\ srv.role = "client" /\ hs.listening < 2
+    /\ hs' = [hs EXCEPT !.listening = @ + 1]
+    /\ UNCHANGED <<pc, nConn, exit>> /\ UNCHANGED CU
+\* a client connects - or, if a timeout was given with -t, nobody does and the tool gives up (without -t it waits for ever:
+\* the environment is then assumed to send a client eventually)
+CAccept(ok) ==
+    /\ pc = "h_connect" /\ srv.role = "client" /\ hs.listening = 2
+    /\ (ok \/ srv.cliTimeout)
+    /\ IF ok THEN /\ sock' = Open("handshake") /\ pc' = "h_banner" /\ exit' = exit /\ Bump("handshake")
+             ELSE /\ sock' = sock /\ pc' = "exit" /\ exit' = 1 /\ nConn' = nConn
+    /\ UNCHANGED <<srv, hs, hkTried, hkParsed, hkGot, hkCur, gexIdx, gexStage, gexStep, smallest, reconnFailed, curReq, asked, reported,
+                   rate, faults, waits, lastRead, handshakeOK, reportShown, kexReqOutside, maxKexReq, openAtExit>>
 
 \* closing the main socket (a no-op when it is not open)
 CloseMain == sock' = NoSock
@@ -192,32 +234,32 @@ CloseMain == sock' = NoSock
 ---------------------------------------------------------------------------
 (* host-key probes (hostkeytest.py) *)
 Advertised(t) == \E i \in 1..Len(srv.hk) : srv.hk[i] = t
-\* next type of the table that is advertised and not yet dealt with, from position hkIdx on (0 if none)
-NextHk == LET C == {i \in hkIdx..Len(ProbeOrder) : Advertised(ProbeOrder[i]) /\ ProbeOrder[i] \notin hkParsed}
-          IN IF C = {} THEN 0 ELSE Min(C)
+\* types still to probe: in the table, advertised, not yet answered for, not yet tried.  (The code walks the table in table
+\* order; no property depends on the order, so the model leaves it open.)
+Remaining == {t \in Range(ProbeOrder) : Advertised(t) /\ t \notin hkParsed /\ t \notin hkTried}
 
 HkBegin ==
     /\ pc = "hk_begin"
     /\ IF srv.kexOK THEN CloseMain /\ pc' = "hk_loop" ELSE sock' = sock /\ pc' = "gex_begin"
-    /\ UNCHANGED <<srv, nConn, hkIdx, hkParsed, hkGot, hkCur, gexIdx, gexStage, gexStep, smallest, reconnFailed, curReq, asked, reported,
+    /\ UNCHANGED <<srv, nConn, hkTried, hkParsed, hkGot, hkCur, gexIdx, gexStage, gexStep, smallest, reconnFailed, curReq, asked, reported,
                    rate, faults, waits, lastRead, handshakeOK, reportShown, exit, kexReqOutside, maxKexReq, openAtExit>>
 
 \* one connection per remaining type; a refused connection ends the phase
 HkConnect(ok) ==
-    /\ pc = "hk_loop" /\ NextHk # 0 /\ ~sock.open /\ Refusal(ok)
+    /\ pc = "hk_loop" /\ ~sock.open /\ Refusal(ok)
     /\ Bump("hostkey")
-    /\ hkIdx' = NextHk + 1 /\ hkCur' = ProbeOrder[NextHk]
+    /\ \E t \in Remaining : hkTried' = hkTried \cup {t} /\ hkCur' = t
     /\ IF ok THEN sock' = Open("hostkey") /\ pc' = "hk_banner" ELSE sock' = sock /\ pc' = "gex_begin"
     /\ UNCHANGED <<srv, hkParsed, hkGot, gexIdx, gexStage, gexStep, smallest, reconnFailed, curReq, asked, reported,
                    rate, waits, lastRead, handshakeOK, reportShown, exit, kexReqOutside, maxKexReq, openAtExit>>
 HkDone ==
-    /\ pc = "hk_loop" /\ NextHk = 0
+    /\ pc = "hk_loop" /\ Remaining = {}
     /\ pc' = "gex_begin"
-    /\ UNCHANGED <<srv, sock, nConn, hkIdx, hkParsed, hkGot, hkCur, gexIdx, gexStage, gexStep, smallest, reconnFailed, curReq, asked,
+    /\ UNCHANGED <<srv, sock, nConn, hkTried, hkParsed, hkGot, hkCur, gexIdx, gexStage, gexStep, smallest, reconnFailed, curReq, asked,
                    reported, rate, faults, waits, lastRead, handshakeOK, reportShown, exit, kexReqOutside, maxKexReq, openAtExit>>
 HkBanner ==
     /\ pc = "hk_banner" /\ SendBanner("hk_banner_read")
-    /\ UNCHANGED <<srv, nConn, hkIdx, hkParsed, hkGot, hkCur, gexIdx, gexStage, gexStep, smallest, reconnFailed, curReq, asked, reported,
+    /\ UNCHANGED <<srv, nConn, hkTried, hkParsed, hkGot, hkCur, gexIdx, gexStage, gexStep, smallest, reconnFailed, curReq, asked, reported,
                    rate, faults, waits, lastRead, handshakeOK, reportShown, exit, kexReqOutside, maxKexReq, openAtExit>>
 \* banner error: close and give the phase up - or carry on regardless and fail at the next read (the properties allow
 \* either; the code does the former on a timeout and the latter on a plain close)
@@ -226,18 +268,18 @@ HkBannerRead(o) ==
     /\ \/ o = "ok" /\ sock' = sock /\ pc' = "hk_sendkex"
        \/ o # "ok" /\ CloseMain /\ pc' = "gex_begin"
        \/ o # "ok" /\ sock' = sock /\ pc' = "hk_sendkex"
-    /\ UNCHANGED <<srv, nConn, hkIdx, hkParsed, hkGot, hkCur, gexIdx, gexStage, gexStep, smallest, reconnFailed, curReq, asked, reported,
+    /\ UNCHANGED <<srv, nConn, hkTried, hkParsed, hkGot, hkCur, gexIdx, gexStage, gexStep, smallest, reconnFailed, curReq, asked, reported,
                    rate, handshakeOK, reportShown, exit, kexReqOutside, maxKexReq, openAtExit>>
 HkSendKex ==
     /\ pc = "hk_sendkex" /\ SendKexinit("hk_recvkex")
-    /\ UNCHANGED <<srv, nConn, hkIdx, hkParsed, hkGot, hkCur, gexIdx, gexStage, gexStep, smallest, reconnFailed, curReq, asked, reported,
+    /\ UNCHANGED <<srv, nConn, hkTried, hkParsed, hkGot, hkCur, gexIdx, gexStage, gexStep, smallest, reconnFailed, curReq, asked, reported,
                    rate, faults, waits, lastRead, handshakeOK, reportShown, exit, kexReqOutside, maxKexReq, openAtExit>>
 \* unreadable KEXINIT: the phase is given up and the socket is left to the next phase to close - or, if what arrived
 \* happens to parse, the probe goes on and fails at its next read
 HkRecvKex(o) ==
     /\ pc = "hk_recvkex" /\ o \in Outcomes /\ Charge(o)
     /\ pc' \in (IF o = "ok" THEN {"hk_init"} ELSE {"gex_begin", "hk_init"})
-    /\ UNCHANGED <<srv, sock, nConn, hkIdx, hkParsed, hkGot, hkCur, gexIdx, gexStage, gexStep, smallest, reconnFailed, curReq, asked,
+    /\ UNCHANGED <<srv, sock, nConn, hkTried, hkParsed, hkGot, hkCur, gexIdx, gexStage, gexStep, smallest, reconnFailed, curReq, asked,
                    reported, rate, handshakeOK, reportShown, exit, kexReqOutside, maxKexReq, openAtExit>>
 
 \* a key-exchange computation request: only on a probe connection that has exchanged KEXINIT
@@ -253,7 +295,7 @@ HkInit ==
     /\ pc = "hk_init"
     /\ IF srv.kexGex THEN pc' = "hk_group" /\ UNCHANGED <<sock, kexReqOutside, maxKexReq>>
        ELSE KexReq /\ pc' = "hk_reply"
-    /\ UNCHANGED <<srv, nConn, hkIdx, hkParsed, hkGot, hkCur, gexIdx, gexStage, gexStep, smallest, reconnFailed, curReq, asked, reported,
+    /\ UNCHANGED <<srv, nConn, hkTried, hkParsed, hkGot, hkCur, gexIdx, gexStage, gexStep, smallest, reconnFailed, curReq, asked, reported,
                    rate, faults, waits, lastRead, handshakeOK, reportShown, exit, openAtExit>>
 \* no usable group: this type cannot be probed; close and go on with the next type
 HkGroup(o) ==
@@ -261,11 +303,11 @@ HkGroup(o) ==
     /\ IF o = "ok" /\ Group(srv, HostKeyGexReq[1], HostKeyGexReq[2], HostKeyGexReq[3]) > 0
        THEN sock' = sock /\ pc' = "hk_init2"
        ELSE CloseMain /\ pc' = "hk_loop"
-    /\ UNCHANGED <<srv, nConn, hkIdx, hkParsed, hkGot, hkCur, gexIdx, gexStage, gexStep, smallest, reconnFailed, curReq, asked, reported,
+    /\ UNCHANGED <<srv, nConn, hkTried, hkParsed, hkGot, hkCur, gexIdx, gexStage, gexStep, smallest, reconnFailed, curReq, asked, reported,
                    rate, handshakeOK, reportShown, exit, kexReqOutside, maxKexReq, openAtExit>>
 HkInit2 ==
     /\ pc = "hk_init2" /\ KexReq /\ pc' = "hk_reply"
-    /\ UNCHANGED <<srv, nConn, hkIdx, hkParsed, hkGot, hkCur, gexIdx, gexStage, gexStep, smallest, reconnFailed, curReq, asked, reported,
+    /\ UNCHANGED <<srv, nConn, hkTried, hkParsed, hkGot, hkCur, gexIdx, gexStage, gexStep, smallest, reconnFailed, curReq, asked, reported,
                    rate, faults, waits, lastRead, handshakeOK, reportShown, exit, openAtExit>>
 \* reply: recorded ("key"), connection error (recorded empty), or unparsable (skipped); the socket is closed either way
 HkReply(o) ==
@@ -276,7 +318,7 @@ HkReply(o) ==
                 ELSE [t \in DOMAIN hkGot \cup (IF hkCur \in RSAFam THEN RSAFam ELSE {hkCur}) |->
                          IF t \in DOMAIN hkGot THEN hkGot[t] ELSE IF o = "ok" THEN "key" ELSE "empty"]
     /\ pc' = "hk_loop"
-    /\ UNCHANGED <<srv, nConn, hkIdx, hkCur, gexIdx, gexStage, gexStep, smallest, reconnFailed, curReq, asked, reported,
+    /\ UNCHANGED <<srv, nConn, hkTried, hkCur, gexIdx, gexStage, gexStep, smallest, reconnFailed, curReq, asked, reported,
                    rate, handshakeOK, reportShown, exit, kexReqOutside, maxKexReq, openAtExit>>
 
 ---------------------------------------------------------------------------
@@ -289,7 +331,7 @@ GexBegin ==
     /\ pc = "gex_begin"
     /\ CloseMain                                   \* GEXTest.run closes whatever the earlier phases left
     /\ pc' = "gex_alg"
-    /\ UNCHANGED <<srv, nConn, hkIdx, hkParsed, hkGot, hkCur, gexIdx, gexStage, gexStep, smallest, reconnFailed, curReq, asked, reported,
+    /\ UNCHANGED <<srv, nConn, hkTried, hkParsed, hkGot, hkCur, gexIdx, gexStage, gexStep, smallest, reconnFailed, curReq, asked, reported,
                    rate, faults, waits, lastRead, handshakeOK, reportShown, exit, kexReqOutside, maxKexReq, openAtExit>>
 GexAlg ==
     /\ pc = "gex_alg"
@@ -297,7 +339,7 @@ GexAlg ==
        THEN pc' = "rate_begin" /\ UNCHANGED <<gexIdx, gexStage, gexStep, smallest, curReq>>
        ELSE /\ gexIdx' = NextGex /\ gexStage' = "first" /\ gexStep' = 1 /\ smallest' = 0 /\ curReq' = FirstReq
             /\ pc' = "gex_conn"
-    /\ UNCHANGED <<srv, sock, nConn, hkIdx, hkParsed, hkGot, hkCur, reconnFailed, asked, reported,
+    /\ UNCHANGED <<srv, sock, nConn, hkTried, hkParsed, hkGot, hkCur, reconnFailed, asked, reported,
                    rate, faults, waits, lastRead, handshakeOK, reportShown, exit, kexReqOutside, maxKexReq, openAtExit>>
 
 \* after a probe: decide what the loop does next (gextest.py:146-170)
@@ -343,7 +385,7 @@ GexLoop ==
               /\ gexIdx' = gexIdx + 1 /\ pc' = "gex_alg"
               /\ UNCHANGED <<gexStage, gexStep, curReq>>
          [] OTHER -> FALSE
-    /\ UNCHANGED <<srv, sock, nConn, hkIdx, hkParsed, hkGot, hkCur, smallest, reconnFailed, asked,
+    /\ UNCHANGED <<srv, sock, nConn, hkTried, hkParsed, hkGot, hkCur, smallest, reconnFailed, asked,
                    rate, faults, waits, lastRead, handshakeOK, reportShown, exit, kexReqOutside, maxKexReq, openAtExit>>
 
 \* every probe makes its own connection; a refused one counts as "reconnect failed"
@@ -352,34 +394,34 @@ GexConnect(ok) ==
     /\ Bump("gex")
     /\ IF ok THEN sock' = Open("gex") /\ pc' = "gex_banner" /\ UNCHANGED <<smallest, reconnFailed, gexStage, gexStep>>
        ELSE sock' = sock /\ GexFinishProbe(-1, TRUE)
-    /\ UNCHANGED <<srv, hkIdx, hkParsed, hkGot, hkCur, gexIdx, curReq, asked, reported,
+    /\ UNCHANGED <<srv, hkTried, hkParsed, hkGot, hkCur, gexIdx, curReq, asked, reported,
                    rate, waits, lastRead, handshakeOK, reportShown, exit, kexReqOutside, maxKexReq, openAtExit>>
 GexBanner ==
     /\ pc = "gex_banner" /\ SendBanner("gex_banner_read")
-    /\ UNCHANGED <<srv, nConn, hkIdx, hkParsed, hkGot, hkCur, gexIdx, gexStage, gexStep, smallest, reconnFailed, curReq, asked, reported,
+    /\ UNCHANGED <<srv, nConn, hkTried, hkParsed, hkGot, hkCur, gexIdx, gexStage, gexStep, smallest, reconnFailed, curReq, asked, reported,
                    rate, faults, waits, lastRead, handshakeOK, reportShown, exit, kexReqOutside, maxKexReq, openAtExit>>
 GexBannerRead(o) ==
     /\ pc = "gex_banner_read" /\ o \in Outcomes /\ Charge(o)
     /\ \/ o = "ok" /\ sock' = sock /\ pc' = "gex_sendkex" /\ UNCHANGED <<smallest, reconnFailed, gexStage, gexStep>>
        \/ o # "ok" /\ CloseMain /\ GexFinishProbe(-1, TRUE)
        \/ o # "ok" /\ sock' = sock /\ pc' = "gex_sendkex" /\ UNCHANGED <<smallest, reconnFailed, gexStage, gexStep>>
-    /\ UNCHANGED <<srv, nConn, hkIdx, hkParsed, hkGot, hkCur, gexIdx, curReq, asked, reported,
+    /\ UNCHANGED <<srv, nConn, hkTried, hkParsed, hkGot, hkCur, gexIdx, curReq, asked, reported,
                    rate, handshakeOK, reportShown, exit, kexReqOutside, maxKexReq, openAtExit>>
 GexSendKex ==
     /\ pc = "gex_sendkex" /\ SendKexinit("gex_recvkex")
-    /\ UNCHANGED <<srv, nConn, hkIdx, hkParsed, hkGot, hkCur, gexIdx, gexStage, gexStep, smallest, reconnFailed, curReq, asked, reported,
+    /\ UNCHANGED <<srv, nConn, hkTried, hkParsed, hkGot, hkCur, gexIdx, gexStage, gexStep, smallest, reconnFailed, curReq, asked, reported,
                    rate, faults, waits, lastRead, handshakeOK, reportShown, exit, kexReqOutside, maxKexReq, openAtExit>>
 GexRecvKex(o) ==
     /\ pc = "gex_recvkex" /\ o \in Outcomes /\ Charge(o)
     /\ \/ o = "ok" /\ sock' = sock /\ pc' = "gex_req" /\ UNCHANGED <<smallest, reconnFailed, gexStage, gexStep>>
        \/ o # "ok" /\ CloseMain /\ GexFinishProbe(-1, TRUE)
        \/ o # "ok" /\ sock' = sock /\ pc' = "gex_req" /\ UNCHANGED <<smallest, reconnFailed, gexStage, gexStep>>
-    /\ UNCHANGED <<srv, nConn, hkIdx, hkParsed, hkGot, hkCur, gexIdx, curReq, asked, reported,
+    /\ UNCHANGED <<srv, nConn, hkTried, hkParsed, hkGot, hkCur, gexIdx, curReq, asked, reported,
                    rate, handshakeOK, reportShown, exit, kexReqOutside, maxKexReq, openAtExit>>
 \* GEX_REQUEST(min, pref, max); the server answers with a group of Group(...) bits or refuses
 GexReq ==
     /\ pc = "gex_req" /\ sock.open /\ sock.stage = "kexinit" /\ pc' = "gex_group"
-    /\ UNCHANGED <<srv, sock, nConn, hkIdx, hkParsed, hkGot, hkCur, gexIdx, gexStage, gexStep, smallest, reconnFailed, curReq, asked, reported,
+    /\ UNCHANGED <<srv, sock, nConn, hkTried, hkParsed, hkGot, hkCur, gexIdx, gexStage, gexStep, smallest, reconnFailed, curReq, asked, reported,
                    rate, faults, waits, lastRead, handshakeOK, reportShown, exit, kexReqOutside, maxKexReq, openAtExit>>
 GexGroup(o) ==
     /\ pc = "gex_group" /\ o \in Outcomes /\ Charge(o)
@@ -389,19 +431,19 @@ GexGroup(o) ==
             /\ UNCHANGED <<reconnFailed, gexStage, gexStep>>
        ELSE /\ (IF o = "ok" THEN Log(curReq, 0) ELSE asked' = asked)
             /\ CloseMain /\ GexFinishProbe(-1, FALSE)
-    /\ UNCHANGED <<srv, nConn, hkIdx, hkParsed, hkGot, hkCur, gexIdx, curReq, reported,
+    /\ UNCHANGED <<srv, nConn, hkTried, hkParsed, hkGot, hkCur, gexIdx, curReq, reported,
                    rate, handshakeOK, reportShown, exit, kexReqOutside, maxKexReq, openAtExit>>
 \* GEX_INIT: the one key-exchange computation request of this connection
 GexInit ==
     /\ pc = "gex_init" /\ KexReq /\ pc' = "gex_reply"
-    /\ UNCHANGED <<srv, nConn, hkIdx, hkParsed, hkGot, hkCur, gexIdx, gexStage, gexStep, smallest, reconnFailed, curReq, asked, reported,
+    /\ UNCHANGED <<srv, nConn, hkTried, hkParsed, hkGot, hkCur, gexIdx, gexStage, gexStep, smallest, reconnFailed, curReq, asked, reported,
                    rate, faults, waits, lastRead, handshakeOK, reportShown, exit, openAtExit>>
 \* whatever the reply, the size of the group already received is the probe's result (unless the reply is not a reply at all)
 GexReply(o) ==
     /\ pc = "gex_reply" /\ o \in Outcomes /\ Charge(o)
     /\ CloseMain
     /\ GexFinishProbe(IF o = "garbage" THEN -1 ELSE smallest, FALSE)
-    /\ UNCHANGED <<srv, nConn, hkIdx, hkParsed, hkGot, hkCur, gexIdx, curReq, asked, reported,
+    /\ UNCHANGED <<srv, nConn, hkTried, hkParsed, hkGot, hkCur, gexIdx, curReq, asked, reported,
                    rate, handshakeOK, reportShown, exit, kexReqOutside, maxKexReq, openAtExit>>
 
 ---------------------------------------------------------------------------
@@ -409,10 +451,10 @@ GexReply(o) ==
 RateBegin ==
     /\ pc = "rate_begin"
     /\ pc' = IF ~srv.skipRate /\ srv.dh THEN "rate" ELSE "report"
-    /\ UNCHANGED <<srv, sock, nConn, hkIdx, hkParsed, hkGot, hkCur, gexIdx, gexStage, gexStep, smallest, reconnFailed, curReq, asked,
+    /\ UNCHANGED <<srv, sock, nConn, hkTried, hkParsed, hkGot, hkCur, gexIdx, gexStage, gexStep, smallest, reconnFailed, curReq, asked,
                    reported, rate, faults, waits, lastRead, handshakeOK, reportShown, exit, kexReqOutside, maxKexReq, openAtExit>>
 RateOver == rate.ticks >= RateTicks \/ rate.counted >= RateCap
-RU == <<srv, sock, hkIdx, hkParsed, hkGot, hkCur, gexIdx, gexStage, gexStep, smallest, reconnFailed, curReq, asked,
+RU == <<srv, sock, hkTried, hkParsed, hkGot, hkCur, gexIdx, gexStage, gexStep, smallest, reconnFailed, curReq, asked,
         reported, waits, lastRead, handshakeOK, reportShown, exit, kexReqOutside, maxKexReq, openAtExit>>
 \* One iteration of the loop: (1) open sockets while fewer than RateConc are in flight and the cap is not reached,
 \* (2) select(): the environment makes k >= 0 of the in-flight sockets readable, (3) each readable socket is read
@@ -455,24 +497,30 @@ RateEnd ==
 Report(st) ==
     /\ pc = "report" /\ st \in {0, 2, 3}
     /\ reportShown' = TRUE /\ exit' = st /\ pc' = "exit"
-    /\ UNCHANGED <<srv, sock, nConn, hkIdx, hkParsed, hkGot, hkCur, gexIdx, gexStage, gexStep, smallest, reconnFailed, curReq, asked,
+    /\ UNCHANGED <<srv, sock, nConn, hkTried, hkParsed, hkGot, hkCur, gexIdx, gexStage, gexStep, smallest, reconnFailed, curReq, asked,
                    reported, rate, faults, waits, lastRead, handshakeOK, kexReqOutside, maxKexReq, openAtExit>>
 \* process exit: whatever is still referenced is closed by the socket's finaliser
 Exit ==
     /\ pc = "exit"
     /\ sock' = NoSock /\ openAtExit' = 0 /\ pc' = "done"
-    /\ UNCHANGED <<srv, nConn, hkIdx, hkParsed, hkGot, hkCur, gexIdx, gexStage, gexStep, smallest, reconnFailed, curReq, asked,
+    /\ hs' = [hs EXCEPT !.orphans = 0, !.listening = 0]
+    /\ UNCHANGED <<srv, nConn, hkTried, hkParsed, hkGot, hkCur, gexIdx, gexStage, gexStep, smallest, reconnFailed, curReq, asked,
                    reported, rate, faults, waits, lastRead, handshakeOK, reportShown, exit, kexReqOutside, maxKexReq>>
 
-Next ==
+\* actions that leave the attempt record alone
+Core ==
     \/ \E ok \in BOOLEAN : HConnect(ok) \/ HkConnect(ok) \/ GexConnect(ok)
     \/ HBanner \/ HSendKex \/ HkBegin \/ HkDone \/ HkBanner \/ HkSendKex \/ HkInit \/ HkInit2
     \/ GexBegin \/ GexAlg \/ GexLoop \/ GexBanner \/ GexSendKex \/ GexReq \/ GexInit
-    \/ \E o \in Outcomes : HBannerRead(o) \/ HRecvKex(o) \/ HkBannerRead(o) \/ HkRecvKex(o) \/ HkReply(o) \/ HkGroup(o)
+    \/ \E o \in Outcomes : HBannerRead(o) \/ HkBannerRead(o) \/ HkRecvKex(o) \/ HkReply(o) \/ HkGroup(o)
                            \/ GexBannerRead(o) \/ GexRecvKex(o) \/ GexGroup(o) \/ GexReply(o)
     \/ RateBegin \/ RateDrain \/ RateEnd \/ RateTimeUp \/ \E bn \in BOOLEAN : RateReply(bn) \/ RateOpen(bn)
     \/ \E k \in 0..RateConc : RateSelect(k)
     \/ \E st \in {0, 2, 3} : Report(st)
+Next ==
+    \/ Core /\ UNCHANGED hs
+    \/ \E o \in Outcomes \cup {"mismatch"} : HRecvKex(o)
+    \/ CListen \/ \E ok \in BOOLEAN : CAccept(ok)
     \/ Exit
 
 Spec == Init /\ [][Next]_vars
@@ -491,7 +539,9 @@ Terminates == <>(pc = "done")
 \* C19
 HkFamilies == Cardinality({Family(srv.hk[i]) : i \in 1..Len(srv.hk)})
 FootprintBounded ==
-    /\ nConn["handshake"] <= 1
+    /\ nConn["handshake"] <= (IF hs.sshv = 1 /\ srv.try = "12" THEN 2 ELSE 1)   \* a second one only for the SSH-1 fallback
+    /\ hs.orphans <= 1 /\ hs.listening <= 2
+    /\ ((hs.sshv = 1 \/ srv.role = "client") => nConn["hostkey"] + nConn["gex"] + nConn["rate"] = 0)    \* no probes of SSH-1 peers or of clients
     /\ nConn["hostkey"] <= Len(srv.hk)                  \* at most one per probed host-key type ...
     /\ ((sock.open /\ sock.phase = "hostkey") => hkCur \notin hkParsed)   \* ... and never for a type already answered (RSA family)
     /\ nConn["gex"] <= 9 * Cardinality(srv.gex)
@@ -499,7 +549,11 @@ FootprintBounded ==
     /\ ((srv.skipRate \/ ~srv.dh) => nConn["rate"] = 0)
     /\ rate.inflight <= RateConc
 KexReqDiscipline == ~kexReqOutside /\ maxKexReq <= 1
-AllClosedAtExit == pc = "done" => (~sock.open /\ rate.inflight = 0 /\ openAtExit = 0)
+AllClosedAtExit == pc = "done" => (~sock.open /\ rate.inflight = 0 /\ openAtExit = 0 /\ hs.orphans = 0 /\ hs.listening = 0)
+\* the protocol version of the attempt only ever goes from 2 to 1, once, and only when both are enabled
+FallbackDiscipline == /\ (hs.sshv = 1 => srv.try \in {"1", "12"}) /\ (hs.sshv = 2 => srv.try \in {"2", "12"})
+                      /\ (hs.orphans > 0 => (hs.sshv = 1 /\ srv.try = "12"))
+OnlyDowngrade == [][hs'.sshv <= hs.sshv]_vars
 ProbesOnlyAfterHandshake == (nConn["hostkey"] + nConn["gex"] + nConn["rate"] > 0) => handshakeOK
 
 \* C12 (fault-free behaviours): what is reported is the smallest group handed out, or the follow-up answer for OpenSSH
